@@ -44,6 +44,19 @@ Theorem write_run_tables_read_back : forall es target, 1 <= target -> run_ok es 
 Proof. exact C17_Main.write_run_tables_read_back. Qed.
 Print Assumptions write_run_tables_read_back.
 
+(* the split run read back as ONE sorted level (LevelList over {}, run): prefix scans and point lookups over the level,
+   built from the fresh tables or from the re-opened ones, return exactly filter / find over the WHOLE run.
+   [level_scan]/[level_get] compose the per-table reads in level order; the table selection inside a level (binary
+   search with RangePrefixCompare / RangeKeyCompare) is proved complete in Props/C06.v level_search_complete and is
+   exercised by the correspondence check (codes 112, 113). *)
+Theorem level_reads_run_back : forall es target, 1 <= target -> run_ok es ->
+  (forall p, level_scan (map write_table (write_run es target)) p = Some (scan_spec es p)) /\
+  (forall key, level_get (map write_table (write_run es target)) key = get_spec es key) /\
+  (forall p, level_scan (map (fun c => reopen (write_table c)) (write_run es target)) p = Some (scan_spec es p)) /\
+  (forall key, level_get (map (fun c => reopen (write_table c)) (write_run es target)) key = get_spec es key).
+Proof. exact C17_Main.level_reads_run_back. Qed.
+Print Assumptions level_reads_run_back.
+
 (* ---------- prefix scan ---------- *)
 Theorem table_scan_is_filter : forall es p,
   Forall entry_ok es -> table_scan_prefix (write_table es) p = Some (scan_spec es p).
